@@ -510,7 +510,11 @@ def wire_to_model(tname, v, descs):
     if tname in ("net.ipaddress", "net.IPAddress"):
         r = _resolve_scalar(v)
         if isinstance(r, str):
+            # frozen encoding: an address is its integer value; text only for the IPv6 addresses below 2**32,
+            # whose integer would be read back as IPv4 (repair F01)
             a = _ip.ip_address(r)
+            if a.version != 6 or int(a) > 0xFFFFFFFF:
+                raise FormatError("address %s written as text, the format encodes it as an integer" % r)
             return ("ip", a.version, int(a))
         if isinstance(r, bool) or not isinstance(r, int):
             raise FormatError("bad ipaddress %r" % (v,))
